@@ -207,7 +207,7 @@ def agent_source_obligations():
 
 _unwrap_replay()
 e1check.run(dict(
-    prop='C07', props=['C07', 'C07Agent', 'C07d'], extra_check=live_tier, extra_obligations=agent_source_obligations, model='cv', harness='e1/cv.cpp', bin='e1_cv', gen=gen, nontrivial=nontrivial, stats=stats,
+    prop='C07', props=['C07', 'C07Agent', 'C07d', 'C07t'], extra_check=live_tier, extra_obligations=agent_source_obligations, model='cv', harness='e1/cv.cpp', bin='e1_cv', gen=gen, nontrivial=nontrivial, stats=stats,
     quick=6000, thorough=150000, extra=12000,
     batches=[dict(model='cv', gen=gen, quick=6000, thorough=150000, extra=12000),
              dict(model='cvabort', gen=gen_abort, quick=1500, thorough=40000, extra=4000)],
